@@ -193,6 +193,29 @@ def load(reg):
     lookup = reg.ufun("plookup", MAPARR, z3.IntSort(), z3.StringSort(), z3.IntSort())
     lookup_ok = reg.ufun("plookup_ok", MAPARR, z3.IntSort(), z3.StringSort(), z3.BoolSort())
 
+    # plookup(H, m, key): the parameter addressed by a dotted key below map m, H = the heap array of the maps'
+    # _value field; defined by recursion on the FIRST period
+    Hm, mm, kk = z3.Const("pl_H", MAPARR), z3.Int("pl_m"), z3.String("pl_k")
+    MS = S.map_sort(MAP(STR, REF("InputParameter")))
+    valsf = MS.accessor(0, 1)
+    dot = z3.StringVal(".")
+    i0 = z3.IndexOf(kk, dot, 0)
+    head = z3.SubString(kk, 0, i0)
+    rest = z3.SubString(kk, i0 + 1, z3.Length(kk) - i0 - 1)
+    note = "definition of the dotted-key lookup plookup by recursion on the first period"
+    reg.scoped_axiom("pmap", z3.ForAll([Hm, mm, kk], z3.Implies(z3.Not(z3.Contains(kk, dot)),
+                     lookup(Hm, mm, kk) == z3.Select(valsf(z3.Select(Hm, mm)), S.sid(kk))), patterns=[lookup(Hm, mm, kk)]), note)
+    reg.scoped_axiom("pmap", z3.ForAll([Hm, mm, kk], z3.Implies(z3.Contains(kk, dot),
+                     lookup(Hm, mm, kk) == lookup(Hm, z3.Select(valsf(z3.Select(Hm, mm)), S.sid(head)), rest)),
+                     patterns=[lookup(Hm, mm, kk)]), note)
+    for ax in S.string_id_axioms():
+        reg.scoped_axiom("pmap", ax, "string ids")
+
+    def sf_plookup(eng, m, key):
+        st = eng._spec_state
+        arr = eng.heap_arr(st, "InputParameterMap._value", MAP(STR, REF("InputParameter")))
+        return SV(REF("InputParameter"), lookup(arr, m.t, key.t))
+    reg.specfun("plookup", sf_plookup)
     reg.define("HEAD(key)", "strprefix(key, indexofstr(key, '.'))")
     reg.define("REST(key)", "strsuffix(key, indexofstr(key, '.') + 1)")
     reg.specfun("indexofstr", lambda eng, s, x: SV(INT, z3.IndexOf(s.t, x.t, 0)))
@@ -205,14 +228,18 @@ def load(reg):
                                          " or True))")],
                  ensures=["implies(not contains(key, '.'), has(self._value, key) and result == get(self._value, key))",
                           "implies(contains(key, '.'), has(self._value, HEAD(key))"
-                          " and instance(get(self._value, HEAD(key)), 'InputParameterMap'))"],
+                          " and instance(get(self._value, HEAD(key)), 'InputParameterMap'))",
+                          # the parameter addressed by the dotted key (recursion on the first period)
+                          "result == plookup(self, key)"],
                  pure=True, props=C18, axiom_sets=("seqstr", "pmap"))
     reg.contract("InputParameterMap.remove", params={"key": "str"}, returns="ref:InputParameter",
                  requires=[],
                  may_raise=[("KeyError", "(not contains(key, '.') and not has(self._value, key)) or contains(key, '.')")],
                  on_raise="unchanged",
                  ensures=["implies(not contains(key, '.'), has(%s, key) and result == get(%s, key)"
-                          " and mapeq(self._value, map_del(%s, key)))" % (V0, V0, V0)],
+                          " and mapeq(self._value, map_del(%s, key)))" % (V0, V0, V0),
+                          # what is removed and returned is the parameter addressed by the dotted key
+                          "result == old(plookup(self, key))"],
                  modifies=["heap.InputParameterMap._value"], props=C18, axiom_sets=("seqstr", "pmap"))
 
     # axiom set 'pmap': string split facts for one separator
